@@ -139,6 +139,16 @@ class UDPMessageDeserializer:
         return msg
 
     def parse_message_body(self, msg: Message):
+        raw_body, deserializer = msg.raw_body, msg.deserializer
+        try:
+            self._parse_message_body(msg)
+        except:
+            # Leave the message as we found it so it can still be forwarded verbatim
+            msg.blocks = {}
+            msg.raw_body, msg.deserializer = raw_body, deserializer
+            raise
+
+    def _parse_message_body(self, msg: Message):
         raw_body = msg.raw_body
         # Already parsed if we don't have a raw body
         if not raw_body:
